@@ -4,6 +4,7 @@ use crate::run::Property;
 
 pub mod common;
 pub mod structs;
+pub mod c01;
 pub mod c02;
 pub mod c03;
 pub mod c04;
@@ -26,7 +27,7 @@ pub mod c19;
 pub mod c20;
 
 pub fn all() -> Vec<Property> {
-    vec![c02::property(), c03::property(), c04::property(), c05::property(), c06::property(), c07::property(), c08::property(), c09::property(), c10::property(), c11::property(), c12::property(), c13::property(), c14::property(), c15::property(), c16::property(), c17::property(), c18::property(), c19::property(), c20::property()]
+    vec![c01::property(), c02::property(), c03::property(), c04::property(), c05::property(), c06::property(), c07::property(), c08::property(), c09::property(), c10::property(), c11::property(), c12::property(), c13::property(), c14::property(), c15::property(), c16::property(), c17::property(), c18::property(), c19::property(), c20::property()]
 }
 
 pub fn find(id: &str) -> Option<Property> {
